@@ -14,10 +14,10 @@ RULE = ("each evaluation is one producer scenario: generated cluster, producer c
         "signature); non-trivial = at least one send reached the wire")
 ASSUMPTIONS = ["'the broker leading the chosen partition' is judged against the cluster's ground truth at apply time",
                "sends are not issued after stop() (outside the statement)", "snappy not installed"]
-REACH_MIN = {"sends_succeeded": {"quick": 400, "thorough": 12000}, "sends_failed": {"quick": 150, "thorough": 4000},
-             "acks0_sends": {"quick": 60, "thorough": 2000}, "attempts_exhausted_by_error_code": {"quick": 8, "thorough": 200},
-             "cancelled_sends": {"quick": 40, "thorough": 1200}, "stopped_with_outstanding": {"quick": 15, "thorough": 400},
-             "gzip_scenarios": {"quick": 40, "thorough": 1200}, "magic1_scenarios": {"quick": 40, "thorough": 1200}}
+REACH_MIN = {"sends_succeeded": {"quick": 400, "thorough": 7200}, "sends_failed": {"quick": 150, "thorough": 2700},
+             "acks0_sends": {"quick": 60, "thorough": 1080}, "attempts_exhausted_by_error_code": {"quick": 8, "thorough": 144},
+             "cancelled_sends": {"quick": 40, "thorough": 720}, "stopped_with_outstanding": {"quick": 7, "thorough": 126},
+             "gzip_scenarios": {"quick": 40, "thorough": 720}, "magic1_scenarios": {"quick": 40, "thorough": 720}}
 
 
 def cases(tier, seed):
